@@ -38,7 +38,9 @@ type c10Params struct {
 	Req   *ReqInfo          `json:"req,omitempty"`
 	Fault harness.FaultKind `json:"fault,omitempty"`
 	// second fault (pairs): statement index in the first retry attempt
-	K2 int `json:"k2,omitempty"`
+	K2    int    `json:"k2,omitempty"`
+	Site2 string `json:"site2,omitempty"`
+	Stmt2 string `json:"stmt2,omitempty"`
 }
 
 func init() {
@@ -50,12 +52,18 @@ func (p *c10Params) describe() string {
 	if p.Req != nil {
 		return fmt.Sprintf("upstream %s on %s(%s) #%d", p.Fault, p.Req.Method, p.Req.What, p.Req.Nth)
 	}
+	if p.K2 > 0 {
+		return fmt.Sprintf("db statement #%d [%s] at %s, then in the retry statement #%d [%s] at %s", p.K, clipS(p.Stmt, 50), p.Site, p.K2, clipS(p.Stmt2, 50), p.Site2)
+	}
 	return fmt.Sprintf("db statement #%d [%s] at %s", p.K, clipS(p.Stmt, 50), p.Site)
 }
 
 func (p *c10Params) signature(what string) string {
 	if p.Req != nil {
 		return fmt.Sprintf("%s label=%s upstream=%s/%s", what, p.Label, p.Req.What, p.Fault)
+	}
+	if p.K2 > 0 {
+		return fmt.Sprintf("%s label=%s site=%s stmt=%s retry-site=%s retry-stmt=%s", what, p.Label, p.Site, clipS(p.Stmt, 48), p.Site2, clipS(p.Stmt2, 48))
 	}
 	return fmt.Sprintf("%s label=%s site=%s stmt=%s", what, p.Label, p.Site, clipS(p.Stmt, 48))
 }
@@ -258,7 +266,9 @@ func checkC10(c *Ctx) *orch.Outcome {
 			k1 := 1 + rng.Intn(len(prof.Stmts))
 			k2 := 1 + rng.Intn(len(prof.Stmts))
 			st := prof.Stmts[k1-1]
-			cases = append(cases, c10Params{Dir: dir, Block: b, Label: prof.Label, K: k1, K2: k2, Stmt: st.Kind + " " + st.SQL, Site: st.Stratum() + "+pair"})
+			st2 := prof.Stmts[k2-1]
+			cases = append(cases, c10Params{Dir: dir, Block: b, Label: prof.Label, K: k1, K2: k2, Stmt: st.Kind + " " + st.SQL, Site: st.Stratum() + "+pair",
+				Site2: st2.Stratum(), Stmt2: st2.Kind + " " + st2.SQL})
 		}
 	}
 	if !c.Thorough() && len(cases) > 700 {
